@@ -73,6 +73,9 @@ def _cases(tier, seed):
                     continue
                 cs.append({'scen': 'ttm_scalar', 's': {'op': op, 'M': M, 'N': N, 'RA': RA, 'dtype': 'float64', 'skind': 'int', 'ival': iv}})
         cs.append({'scen': 'ttm_scalar', 's': {'op': 'neg', 'M': M, 'N': N, 'RA': RA, 'dtype': 'float64', 'skind': 'none'}})
+    for dt in ('float64', 'complex128'):
+        for op in ('mul', 'rmul'):
+            cs.append({'scen': 'ttm_scalar', 's': {'op': op, 'M': [2, 1], 'N': [1, 3], 'RA': [1, 2, 1], 'dtype': dt, 'skind': 'complex'}})
     return cs
 
 
